@@ -50,6 +50,37 @@ int main(int argc, char **argv)
     return 0;
   }
   int T = atoi(argv[2]);
+  if (mode == "big")
+  {
+    // production chunk size (build without the override): lengths around multiples of the chunk.
+    // Bytes are not logged (too large for the validator); equality is computed here.
+    long S = iobuffer::sum;
+    const long lens[] = {S - 17, S - 16, S - 1, S, S + 1, 2 * S - 16, 2 * S + 3};
+    for (long n : lens)
+    {
+      int cm = (int)((n + T) % 5), hm = (int)((n / 3 + T) % 3);
+      auto P = wv_content(rng, n, 0);
+      auto key = rng.bytes(16);
+      std::vector<u8_t> seed = {'b', 'i', 'g'};
+      int detail = 0;
+      int how = wv_guarded([&]()
+                           {
+        OpResult e = wv_encrypt(P, key, cm, hm, seed, T);
+        OpResult v = wv_verify(e.out, key, T);
+        OpResult d = wv_decrypt(e.out, key, T);
+        bool clear = false;
+        for (long b = 0; b + 16 <= n && b < 4096 && !clear; b += 16)
+          clear = memcmp(e.out.data() + 48 + 20 * T + b, P.data() + b, 16) == 0;
+        Ev("rtbig").i("id", id).i("S", S).i("T", T).i("n", n).i("cm", cm).i("hm", hm).i("enc_ret", e.ret).i("clen", e.out.size())
+          .i("enc_in_intact", e.in_after == P).i("ver_ret", v.ret).i("ver_out_len", v.out.size()).i("dec_ret", d.ret).i("dlen", d.out.size())
+          .i("equal", d.out == P).i("clear_block", clear).b("head", e.out.data(), 10).emit(wv_out); },
+                           90, &detail);
+      if (how != 0)
+        Ev("abort").i("id", id).str("cls", "big").i("S", S).i("T", T).i("n", n).i("cm", cm).i("hm", hm).b("key", key).b("seed", seed).b("P", NULL, 0).str("how", wv_how[how]).i("detail", detail).emit(wv_out);
+      ++id;
+    }
+    return 0;
+  }
   if (mode == "rt")
   {
     int nmin = atoi(argv[3]), nmax = atoi(argv[4]), nstep = atoi(argv[5]);
